@@ -454,7 +454,7 @@ class DHTCommunity(Community):
             sig_len = self.crypto.get_signature_length(public_key)
             sig = value[-sig_len:]
             if self.crypto.is_valid_signature(public_key, value[:-sig_len], sig):
-                return payload.data, payload.public_key, payload.version
+                return payload.data, public_key.key_to_bin(), payload.version
 
         return None
 
